@@ -1479,7 +1479,7 @@ func wrapperStepErrors(c *Ctx, id string) {
 						// handed to the operation's own callback: the failure is reported the way a completion would be
 						if ci, isCI := sk.In.(ssa.CallInstruction); isCI {
 							for _, st := range asyncSites(w) {
-								if st.Call == call && ci.Common().Value == st.CbValue {
+								if st.Call == call && unwrap(ci.Common().Value) == unwrap(st.CbValue) {
 									handedToWait = true
 								}
 							}
@@ -1494,7 +1494,13 @@ func wrapperStepErrors(c *Ctx, id string) {
 					if strings.HasSuffix(cn, ").Close") || strings.HasSuffix(cn, ".Close") {
 						return
 					}
-					dropped = append(dropped, cn+" @"+w.pos(in.Pos()))
+					var kinds []string
+					if len(ers) > 0 {
+						for _, sk := range errorSinks(ers[0]) {
+							kinds = append(kinds, sk.Kind)
+						}
+					}
+					dropped = append(dropped, cn+" @"+w.pos(in.Pos())+fmt.Sprintf(" (error flows to %v)", kinds))
 					return
 				}
 				if strings.HasSuffix(cn, "errgroup.Group).Wait") {
